@@ -42,6 +42,8 @@ pub unsafe extern "C" fn bcmp(a: *const u8, b: *const u8, n: usize) -> i32 {
 /// What runs in the traced child between the two markers.
 enum Work<'a> {
     Validate(&'a Case),
+    /// the variant of a signed base whose presented signature first differs at `pos` (built in the child)
+    Variant { base: &'a Signed, pos: usize, k: usize },
     /// self-check of the tracer: an early-exit comparison of two 64-byte strings through `==`
     EarlyExit(&'a [u8], &'a [u8]),
 }
@@ -56,6 +58,10 @@ fn run_work(w: &Work) {
             unsafe { libc::raise(libc::SIGUSR1) };
             std::hint::black_box(v.class);
         }
+        Work::Variant { base, pos, k } => {
+            let c = variant_of(base, *pos, *k);
+            run_work(&Work::Validate(&c));
+        }
         Work::EarlyExit(a, b) => {
             unsafe { libc::raise(libc::SIGSTOP) };
             let eq = std::hint::black_box(*a) == std::hint::black_box(*b);
@@ -65,12 +71,15 @@ fn run_work(w: &Work) {
     }
 }
 
-/// Fork, trace the child between its SIGSTOP marker and its SIGUSR1 marker, return the RIP sequence.
-fn trace(w: &Work) -> Result<Vec<u64>, String> {
+/// Fork, trace the child between its SIGSTOP marker and its SIGUSR1 marker; the RIP sequence goes into
+/// `rips` (cleared first; never reallocated: the tracer must not disturb its own heap between forks, or the
+/// children — copies of it — would start from different allocator states).
+fn trace(w: &Work, rips: &mut Vec<u64>) -> Result<(), &'static str> {
+    rips.clear();
     unsafe {
         let pid = libc::fork();
         if pid < 0 {
-            return Err("fork failed".into());
+            return Err("fork failed");
         }
         if pid == 0 {
             libc::ptrace(libc::PTRACE_TRACEME, 0, 0, 0);
@@ -82,7 +91,7 @@ fn trace(w: &Work) -> Result<Vec<u64>, String> {
         let wait = |status: &mut i32| -> i32 { libc::waitpid(pid, status as *mut i32, 0) };
         wait(&mut status);
         if !libc::WIFSTOPPED(status) {
-            return Err("child did not stop".into());
+            return Err("child did not stop");
         }
         // run to the start marker (the provider's answer is about to become ready)
         libc::ptrace(libc::PTRACE_CONT, pid, 0, 0);
@@ -90,17 +99,16 @@ fn trace(w: &Work) -> Result<Vec<u64>, String> {
         if !(libc::WIFSTOPPED(status) && libc::WSTOPSIG(status) == libc::SIGSTOP) {
             libc::kill(pid, libc::SIGKILL);
             wait(&mut status);
-            return Err(format!("no start marker (status {:#x})", status));
+            return Err("no start marker");
         }
-        let mut rips: Vec<u64> = Vec::with_capacity(1 << 16);
         let mut regs: libc::user_regs_struct = std::mem::zeroed();
         loop {
             if libc::ptrace(libc::PTRACE_SINGLESTEP, pid, 0, 0) != 0 {
-                return Err("singlestep failed".into());
+                return Err("singlestep failed");
             }
             wait(&mut status);
             if libc::WIFEXITED(status) || libc::WIFSIGNALED(status) {
-                return Err("child ended before the end marker".into());
+                return Err("child ended before the end marker");
             }
             let sig = libc::WSTOPSIG(status);
             if sig == libc::SIGUSR1 {
@@ -109,19 +117,19 @@ fn trace(w: &Work) -> Result<Vec<u64>, String> {
             if sig != libc::SIGTRAP {
                 libc::kill(pid, libc::SIGKILL);
                 wait(&mut status);
-                return Err(format!("unexpected signal {} while stepping", sig));
+                return Err("unexpected signal while stepping");
             }
             libc::ptrace(libc::PTRACE_GETREGS, pid, 0, &mut regs as *mut _);
-            rips.push(regs.rip);
-            if rips.len() > 20_000_000 {
+            if rips.len() == rips.capacity() {
                 libc::kill(pid, libc::SIGKILL);
                 wait(&mut status);
-                return Err("trace too long".into());
+                return Err("trace too long");
             }
+            rips.push(regs.rip);
         }
         libc::kill(pid, libc::SIGKILL);
         wait(&mut status);
-        Ok(rips)
+        Ok(())
     }
 }
 
@@ -131,6 +139,21 @@ fn same_class_other(c: u8, k: usize) -> u8 {
     } else {
         b'a' + ((c - b'a') as usize + 1 + k % 5) as u8 % 6
     }
+}
+
+fn variant_of(s: &Signed, p: usize, k: usize) -> Case {
+    let mut sig = s.signature.clone().into_bytes();
+    sig[p] = same_class_other(sig[p], k);
+    if k == 1 {
+        // everything after the first difference differs too (same class)
+        for q in p + 1..64 {
+            sig[q] = same_class_other(sig[q], q);
+        }
+    }
+    let sig = String::from_utf8(sig).unwrap();
+    let mut c = s.case.clone();
+    set_signature(&mut c, &s.signature, &sig);
+    c
 }
 
 fn first_divergence(a: &[u64], b: &[u64]) -> Option<usize> {
@@ -149,6 +172,8 @@ fn main() {
     let mut rep = Report::default();
     let t0 = std::time::Instant::now();
 
+    let mut cur: Vec<u64> = Vec::with_capacity(8_000_000);
+    let mut reference: Vec<u64> = Vec::with_capacity(8_000_000);
     // self-check of the tracer: an early-exit comparison must show position-dependent traces
     {
         let a = [b'a'; 64];
@@ -156,26 +181,26 @@ fn main() {
         b0[0] = b'b';
         let mut b63 = a;
         b63[63] = b'b';
-        let warm = trace(&Work::EarlyExit(&a, &a));
-        let t_0 = trace(&Work::EarlyExit(&a, &b0));
-        let t_63 = trace(&Work::EarlyExit(&a, &b63));
-        match (warm, t_0, t_63) {
-            (Ok(_), Ok(x), Ok(y)) => {
-                rep.add("selfcheck.early_exit_steps_pos0", x.len() as u64);
-                rep.add("selfcheck.early_exit_steps_pos63", y.len() as u64);
-                if x.len() == y.len() {
-                    rep.fail(Failure { kind: "INTERNAL", op: "TRACE".into(), class: "tracer-blind".into(), input: "early-exit comparison, first difference at 0 vs 63".into(), imp: format!("{} vs {} steps", x.len(), y.len()), model: "trace length = index of first difference + 1".into(), spec: String::new(), clause: "the tracer does not distinguish an early-exit comparison at different positions".into() });
-                }
-            }
-            (a, b, c) => {
-                rep.fail(Failure { kind: "INTERNAL", op: "TRACE".into(), class: "tracer-failed".into(), input: "self-check".into(), imp: format!("{:?} {:?} {:?}", a.err(), b.err(), c.err()), model: String::new(), spec: String::new(), clause: "ptrace single-stepping does not work in this environment".into() });
-                rep.print();
-                println!("DONE");
-                return;
-            }
+        let r1 = trace(&Work::EarlyExit(&a, &b0), &mut cur);
+        let n0 = cur.len();
+        let r2 = trace(&Work::EarlyExit(&a, &b63), &mut cur);
+        let n63 = cur.len();
+        if r1.is_err() || r2.is_err() {
+            rep.fail(Failure { kind: "INTERNAL", op: "TRACE".into(), class: "tracer-failed".into(), input: "self-check".into(), imp: format!("{:?} {:?}", r1.err(), r2.err()), model: String::new(), spec: String::new(), clause: "ptrace single-stepping does not work in this environment".into() });
+            rep.print();
+            println!("DONE");
+            return;
+        }
+        rep.add("selfcheck.early_exit_steps_pos0", n0 as u64);
+        rep.add("selfcheck.early_exit_steps_pos63", n63 as u64);
+        if n0 == n63 {
+            rep.fail(Failure { kind: "INTERNAL", op: "TRACE".into(), class: "tracer-blind".into(), input: "early-exit comparison, first difference at 0 vs 63".into(), imp: format!("{} vs {} steps", n0, n63), model: "trace length = index of first difference + 1".into(), spec: String::new(), clause: "the tracer does not distinguish an early-exit comparison at different positions".into() });
         }
     }
 
+    if std::env::var("CTTRACE_MAPS").is_ok() {
+        eprintln!("{}", std::fs::read_to_string("/proc/self/maps").unwrap_or_default());
+    }
     let nbases = if thorough { 6 } else { 2 };
     for base in 0..nbases {
         // base request: header carrier for even bases, query carrier for odd ones; random otherwise
@@ -190,60 +215,59 @@ fn main() {
             let v = imp::validate_with(&c, req, &mut prov);
             std::hint::black_box(v.class);
         }
-        let positions: Vec<usize> = (0..64).collect();
         let variants_per_pos = if thorough { 2 } else { 1 };
-        let mut reference: Option<(usize, Vec<u64>)> = None;
-        for &p in &positions {
+        // no heap activity in this loop: results go into fixed arrays and are reported afterwards
+        let mut results: [(usize, usize, usize, i64, bool); 128] = [(0, 0, 0, -1, false); 128];
+        let mut nres = 0usize;
+        let mut have_ref = false;
+        let mut errors: [&'static str; 128] = [""; 128];
+        for p in 0..64usize {
             for k in 0..variants_per_pos {
-                let mut sig = s.signature.clone().into_bytes();
-                sig[p] = same_class_other(sig[p], k);
-                if k == 1 {
-                    // everything after the first difference differs too (same class)
-                    for q in p + 1..64 {
-                        sig[q] = same_class_other(sig[q], q);
-                    }
-                }
-                let sig = String::from_utf8(sig).unwrap();
-                let mut c = s.case.clone();
-                set_signature(&mut c, &s.signature, &sig);
-                if c.uri == s.case.uri && c.headers == s.case.headers {
-                    continue;
-                }
-                rep.count("evaluations");
-                rep.count("traces_validated_against_impl");
-                match trace(&Work::Validate(&c)) {
+                let r = trace(&Work::Variant { base: &s, pos: p, k }, &mut cur);
+                match r {
                     Err(e) => {
-                        rep.fail(Failure { kind: "INTERNAL", op: "TRACE".into(), class: "tracer-failed".into(), input: format!("base {} position {}", base, p), imp: e, model: String::new(), spec: String::new(), clause: "tracing a refusal failed".into() });
+                        errors[nres] = e;
+                        results[nres] = (p, k, 0, -1, true);
                     }
-                    Ok(t) => {
-                        rep.distinct(&format!("{}:{}:{}", base, p, k));
-                        rep.add("steps_total", t.len() as u64);
-                        match &reference {
-                            None => {
-                                rep.add(&format!("steps_base{}", base), t.len() as u64);
-                                reference = Some((p, t));
-                            }
-                            Some((p0, r)) => {
-                                if let Some(d) = first_divergence(r, &t) {
-                                    rep.fail(Failure {
-                                        kind: "ORACLE",
-                                        op: "TRACE".into(),
-                                        class: "c07-trace-differs".into(),
-                                        input: format!("request {} ; presented signature differs first at position {} (variant {}) vs position {}", c.describe(), p, k, p0),
-                                        imp: format!("{} instructions vs {}; traces diverge at step {} (rip {:#x} vs {:#x})", t.len(), r.len(), d, t.get(d).copied().unwrap_or(0), r.get(d).copied().unwrap_or(0)),
-                                        model: "ctEq trace depends on lengths only (C07.ctEq_trace_length_only)".into(),
-                                        spec: String::new(),
-                                        clause: "C07: the instruction sequence executed while refusing a wrong signature depends on which characters are wrong".into(),
-                                    });
-                                }
-                            }
+                    Ok(()) => {
+                        if !have_ref {
+                            reference.clear();
+                            reference.extend_from_slice(&cur); // within capacity: no allocation
+                            have_ref = true;
+                            results[nres] = (p, k, cur.len(), -1, false);
+                        } else {
+                            let d = first_divergence(&reference, &cur).map(|x| x as i64).unwrap_or(-1);
+                            results[nres] = (p, k, cur.len(), d, false);
                         }
                     }
                 }
+                nres += 1;
             }
         }
+        for i in 0..nres {
+            let (p, k, len, d, failed) = results[i];
+            rep.count("evaluations");
+            rep.count("traces_validated_against_impl");
+            rep.distinct(&format!("{}:{}:{}", base, p, k));
+            rep.add("steps_total", len as u64);
+            if failed {
+                rep.fail(Failure { kind: "INTERNAL", op: "TRACE".into(), class: "tracer-failed".into(), input: format!("base {} position {}", base, p), imp: errors[i].to_string(), model: String::new(), spec: String::new(), clause: "tracing a refusal failed".into() });
+            } else if d >= 0 {
+                rep.fail(Failure {
+                    kind: "ORACLE",
+                    op: "TRACE".into(),
+                    class: "c07-trace-differs".into(),
+                    input: format!("request {} ; presented signature differs first at position {} (variant {}) vs position {}", s.case.describe(), p, k, results[0].0),
+                    imp: format!("{} instructions vs {}; traces diverge at step {}", len, results[0].2, d),
+                    model: "ctEq trace depends on lengths only (C07.ctEq_trace_length_only)".into(),
+                    spec: String::new(),
+                    clause: "C07: the instruction sequence executed while refusing a wrong signature depends on which characters are wrong".into(),
+                });
+            }
+        }
+        rep.add(&format!("steps_base{}", base), results[0].2 as u64);
         if rep.samples.len() < 4 {
-            rep.sample(format!("base {}: {} ; 64 first-difference positions x {} variant(s), reference trace {} instructions", base, s.case.describe().chars().take(200).collect::<String>(), variants_per_pos, reference.as_ref().map(|r| r.1.len()).unwrap_or(0)));
+            rep.sample(format!("base {}: {} ; 64 first-difference positions x {} variant(s), reference trace {} instructions", base, s.case.describe().chars().take(200).collect::<String>(), variants_per_pos, results[0].2));
         }
     }
     rep.add("wall_ms", t0.elapsed().as_millis() as u64);
